@@ -401,6 +401,10 @@ def verdictOf (sc : Script) (o : Obs) : String :=
           resolvesOnceClosed shutdownRequested
             (match o.resolvedAt with | some r => r ≤ tDrain | none => false)
             (connViews (some tDrain))),
+       -- at the drain point every handler has been released and has had a quiescent point to finish
+       ("shutdown-completes",
+          shutdownCompletes shutdownRequested true
+            (match o.resolvedAt with | some r => r ≤ tDrain | none => false)),
        ("no-spurious-resolve", noSpuriousResolve shutdownRequested o.resolvedAt.isSome)]
     else
       [("resolves-once-closed",
